@@ -495,6 +495,33 @@ class Unit:
 
     def write_facts(self, facts):
         """B: values computed by g++ on the real headers (sizeof of records, constexpr variable templates)"""
+        # facts whose key starts with AC_ are about ACCESS (is a constructor reachable from application code?): they are computed by
+        # a second program compiled with access control on; everything else is compiled with -fno-access-control (private members
+        # and enumerators are read for layout and state facts)
+        ac = {k: v for k, v in facts.items() if k.startswith('AC_')}
+        facts = {k: v for k, v in facts.items() if not k.startswith('AC_')}
+        ac_text = ''
+        if ac:
+            src2 = os.path.join(self.dir, 'facts_ac.cpp')
+            s2 = ''
+            for d in self.defines:
+                s2 += '#define %s\n' % d.replace('=', ' ', 1)
+            s2 += self.pre_cpp + '\n'
+            for i in self.includes:
+                s2 += '#include "%s"\n' % i
+            s2 += self.extra_cpp + '\n#include <cstdio>\n#include <type_traits>\nusing namespace rlbox; using namespace rlbox::detail;\nint main(){\n'
+            for k, (expr, cty) in ac.items():
+                s2 += '  std::printf("#define %s ((%s)%%lluULL)\\n", (unsigned long long)(%s));\n' % (k, cty, expr)
+            s2 += '  return 0;\n}\n'
+            open(src2, 'w').write(s2)
+            exe2 = os.path.join(self.dir, 'facts_ac')
+            p2 = subprocess.run(['g++', '-std=c++17', '-w', '-I' + REPO_INC, '-I' + os.path.join(VERIF, 'backend'), '-I' + os.path.join(VERIF, 'include'), src2, '-o', exe2, '-lpthread'],
+                                stdout=subprocess.PIPE, stderr=subprocess.STDOUT, text=True)
+            if p2.returncode != 0:
+                raise ExtractError('access-facts program failed to compile:\n' + p2.stdout[-3000:])
+            ac_text = subprocess.run([exe2], stdout=subprocess.PIPE, text=True).stdout
+            os.remove(exe2)
+        self._ac_text = ac_text
         src = os.path.join(self.dir, 'facts.cpp')
         s = ''
         for d in self.defines:
@@ -514,7 +541,7 @@ class Unit:
         if p.returncode != 0:
             raise ExtractError('facts program failed to compile:\n' + p.stdout[-3000:])
         o = subprocess.run([exe], stdout=subprocess.PIPE, text=True)
-        open(os.path.join(self.dir, 'facts.h'), 'w').write('/* computed by g++ from /repo headers */\n' + o.stdout)
+        open(os.path.join(self.dir, 'facts.h'), 'w').write('/* computed by g++ from /repo headers */\n' + o.stdout + self._ac_text)
         os.remove(exe)
 
     # ---------------------------------------------------------------- verification
